@@ -113,13 +113,29 @@ pub fn check_emitted(acc: &mut Acc, check: &str, s: &dyn Subject, bytes: &[u8], 
 
 pub fn c01(ctx: &mut Ctx, acc: &mut Acc) -> i32 {
     let n = ctx.n(2000, 20_000);
-    let subjects: Vec<String> = ctx.my_subjects(|s| true).iter().map(|s| s.id().to_string()).filter(|id| ctx.is_catalogue(id)).collect();
+    // the local-time lane (TZ set to a zone with daylight saving by the driver): only types containing DateTime<Local>,
+    // only unambiguous local times (values the zone cannot represent are skipped, as the property says)
+    let local_lane = ctx.extra.get("only").map(|v| v == "local").unwrap_or(false);
+    let subjects: Vec<String> = ctx
+        .my_subjects(|s| !local_lane || s.ty().any(&mut |t| matches!(t, Ty::DateTimeLocal), &mut Vec::new()))
+        .iter()
+        .map(|s| s.id().to_string())
+        .filter(|id| ctx.is_catalogue(id))
+        .collect();
     for id in subjects {
         let s = ctx.reg.get(&id).unwrap();
         let ty = s.ty();
         for idx in 0..n {
             let mut rng = ctx.rng_for(TAG_C01, &id, idx);
             let v = gen_val(&ty, &mut rng, &ctx.gen);
+            if local_lane {
+                // ambiguous or skipped wall-clock times cannot be built in this zone: outside the quantifier
+                if !matches!(monitors::guarded(|| drop(s.make(&v)), |_| None), monitors::Outcome::Done(())) {
+                    acc.count("ambiguous_or_skipped_local_times_not_counted");
+                    continue;
+                }
+                acc.count("local_time_cases_under_dst_zone");
+            }
             let exp = expected(&ty, &v);
             let Some((_x, bytes)) = encode_case(acc, s, &v) else {
                 acc.case(None);
